@@ -41,7 +41,8 @@ PROP = {'lean_props': ['Comrak.Props.C09'],
                  'outside the statement (its rendering carries two end tags: literal_with_children_rejected)',
                  'a panic inside parse_document leaves no tree to render and is counted as skipped (it is the subject of C01)']}
 
-TEXT = {'text': 'Proof. xml.rs is modelled completely at token level (prolog, 41 node kinds with their attributes, the private escape loop, min(indent,40) '
+TEXT = {'text_added': 'Tables that reach the auto-completion cap (more than 500 000 cells, too large for the model) are checked on the Rust side: format_xml returns and the output has one element per cell, row and paragraph. Directly built trees contain zero-length text nodes.',
+ 'text': 'Proof. xml.rs is modelled completely at token level (prolog, 41 node kinds with their attributes, the private escape loop, min(indent,40) '
          'indentation, Pre/Post traversal incl. the literal-kind quirk; the EscapedTag payload is the escaped attribute tag="..." since the repair '
          'ce28ea3); spellXml gives the exact bytes. A strict XML reader '
          '(readXml: byte-at-a-time lexer + stack builder) and the element tree an AST stands for (xmlTree) are defined in Lean. Lean proves, for '
